@@ -166,9 +166,9 @@ Lemma relabel_snd rn e : snd (relabel rn e) = snd e.
 Proof. unfold relabel. match goal with |- context [find ?f rn] => destruct (find f rn) end; reflexivity. Qed.
 
 Theorem sort_pnames_fixed_ok s : inv s ->
-  exists s', sort_pnames_fixed s = Some s' /\ inv s' /\ abs s' = abs s.
+  exists s', sort_pnames_fixed s = Some s' /\ inv s' /\ abs s' = abs s /\ st_part s' = st_part s.
 Proof.
-  intros I. pose proof I as [A [B [Cn [D E]]]].
+  intros I. pose proof I as [A [B [Cn [D [E F]]]]].
   set (sum := st_sum s) in *. set (d := st_dir s) in *. set (idx := indexed 0 sum).
   set (rn := filter needs idx).
   (* the list of renames *)
@@ -226,7 +226,7 @@ Proof.
   { intros ab Hin. apply in_map_iff in Hin. destruct Hin as [x [Eab Hx]]. subst ab. cbn [fst]. rewrite (T1 x Hx).
     apply (S1 (snd x, g_tmp x)). apply in_map_iff. now exists x. }
   destruct (rename_all_spec _ d1 N2 S2) as [d2 [R2 L2]].
-  exists {| st_dir := d2; st_sum := map (relabel rn) sum; st_num := st_num s |}.
+  exists {| st_dir := d2; st_sum := map (relabel rn) sum; st_num := st_num s; st_part := st_part s; st_sch := st_sch s |}.
   split.
   { unfold sort_pnames_fixed. fold sum. rewrite P1. fold d.
     change (map (fun ip : N * path => (snd ip, tmp_name (fst ip) (snd ip))) rn) with (moves snd g_tmp rn). rewrite R1.
@@ -270,7 +270,7 @@ Proof.
     - rewrite (rel_hit i p r (in_rn i p Hi Hn)). cbn [fst]. now apply fin_pid.
     - destruct (not_rn i p Hi Hn) as [Nr Pp]. now rewrite (rel_miss p r Nr). }
   split.
-  - repeat split; cbn [st_dir st_sum st_num].
+  - repeat split; cbn [st_dir st_sum st_num st_part st_sch].
     + intros e' He'. apply in_map_iff in He'. destruct He' as [[p r] [Ee He]]. subst e'.
       destruct (indexed_in sum 0 p r He) as [i Hi]. fold idx in Hi. destruct (needs (i, p)) eqn:Hn.
       * rewrite (rel_hit i p r (in_rn i p Hi Hn)). cbn [fst snd]. rewrite (look_hit i p (in_rn i p Hi Hn)). exact (A (p, r) He).
@@ -294,7 +294,8 @@ Proof.
       * rewrite (rel_hit i p r (in_rn i p Hi Hn)). cbn [fst]. destruct (named i p Hi) as [dd [n [_ [Hnl Hd]]]].
         exists dd, i. unfold final_name. rewrite Hd. split; [reflexivity|]. split; [now apply no_nl_spec | apply part_name_no_slash].
       * destruct (not_rn i p Hi Hn) as [Nr _]. rewrite (rel_miss p r Nr). exact (E (p, r) He).
-  - rewrite !abs_def. cbn [st_sum]. fold sum. rewrite map_map. apply map_ext_in. intros [p r] He.
+    + intros Hn. fold sum in F. rewrite (F Hn). reflexivity.
+  - split; [|reflexivity]. rewrite !abs_def. cbn [st_sum]. fold sum. rewrite map_map. apply map_ext_in. intros [p r] He.
     destruct (indexed_in sum 0 p r He) as [i Hi]. fold idx in Hi. destruct (needs (i, p)) eqn:Hn.
     + rewrite (rel_hit i p r (in_rn i p Hi Hn)). unfold absf. cbn [fst snd]. destruct (named i p Hi) as [dd [n [_ [_ Hd]]]].
       unfold final_name. rewrite Hd. now rewrite dir_of_part.
